@@ -315,6 +315,39 @@ def optional_descs(tier):
     return out
 
 
+def optional_matrix_descs(tier):
+    """optional field type x width x position: every octet width of a scalar, enums of native and non-native widths,
+    as the last field of the packet and followed by further fields"""
+    out = []
+    widths = (8, 16, 24, 32, 40, 48, 56, 64) if tier != "quick" else (8, 24, 40, 56, 64)
+    for w in widths:
+        out.append(desc("little", [packet("P", [scalar("c", 1), reserved(7), scalar("x", w, cond=("c", 1))])], name="optm_u%d_last" % w))
+        out.append(desc("little", [packet("P", [scalar("c", 1), reserved(7), scalar("x", w, cond=("c", 0)), scalar("t", 16)])],
+                        name="optm_u%d_mid" % w))
+    for e in (E8, E16, E24, E64):
+        out.append(desc("little", [e, packet("P", [scalar("c", 1), reserved(7), typedef("x", e["id"], cond=("c", 1))])],
+                        name="optm_%s_last" % e["id"].lower()))
+        out.append(desc("little", [e, packet("P", [scalar("c", 1), reserved(7), typedef("x", e["id"], cond=("c", 1)), scalar("t", 8)])],
+                        name="optm_%s_mid" % e["id"].lower()))
+    return out
+
+
+def wide_chunk_descs(tier):
+    """bit-field groups of 3..8 octets made of several fields (scalar / reserved / fixed in turn)"""
+    out = []
+    comps = [(4, 20), (12, 12), (1, 23), (8, 32), (4, 36), (16, 32), (3, 45), (8, 48), (4, 52), (1, 63), (32, 32), (4, 60),
+             (9, 7, 8), (17, 15, 8, 8), (2, 30, 24), (24, 24, 16)]
+    if tier == "quick":
+        comps = comps[::2] + [(17, 15, 8, 8)]
+    pats = ["ss", "rs", "sr", "xs", "sx"]
+    for n, comp in enumerate(comps):
+        pat = pats[n % len(pats)]
+        fields = [_bf_field(pat[i % len(pat)] if (pat[i % len(pat)] != "x" or w >= 3) else "s", w, i) for i, w in enumerate(comp)]
+        out.append(desc("little", [packet("P", [scalar("h", 8)] + fields + [scalar("t", 8)])],
+                        name="wc_%s_%s" % ("_".join(map(str, comp)), pat)))
+    return out
+
+
 def struct_descs(tier):
     out = []
     # a derived struct as the type of a plain field, of an optional field and of a static array
@@ -430,6 +463,10 @@ def inherit_descs(tier):
                                packet("Large", [scalar("x", 16)], parent="Alias", cons=[cons("a", 2)]),
                                packet("Other", [scalar("x", 8)], parent="Parent", cons=[cons("a", 3)])],
                     name="inh_alias_same_cons"))
+    # statically sized array and struct fields of the parent *after* its payload
+    out.append(desc("little", [SS, packet("Parent", [scalar("v", 8), payload(), array("tl", 16, count=2), typedef("st", "SS")]),
+                               packet("Child", [scalar("x", 8), count("z", 8), array("z", 8)], parent="Parent", cons=[cons("v", 1)])],
+                    name="inh_tail_array_after_payload"))
     # constraint lists written in another order than the fields, same-typed fields bound to different values,
     # at one level and spread over two levels (child binds the later field, grandchild the earlier one)
     out.append(desc("little", [packet("Parent", [scalar("a", 8), scalar("b", 8), scalar("c", 16), scalar("d", 16), payload()]),
@@ -583,7 +620,7 @@ def syntax_descs(tier):
 def build(tier="quick"):
     ds = []
     for f in (bitfield_descs, enum_descs, array_descs, payload_descs, optional_descs, struct_descs, custom_descs,
-              inherit_descs, group_descs, chunk_descs):
+              inherit_descs, group_descs, chunk_descs, optional_matrix_descs, wide_chunk_descs):
         ds += f(tier)
     names = set()
     for d in ds:
